@@ -200,6 +200,11 @@ def gen_cases(seed, tier):
         "new 0 vec;set 0 C:0 1;new 1 map;set 1 C:13 2;set 1 C:0 4;sub 2 0 1 ref;addi 0 1 own;subi 1 0 mut",
     ]
     corpus += [
+        # different compositions with the same length and bit-identical masses (an element and its most abundant isotope
+        # fixed; Bk / Cm at 247.0): no shortcut may take "same size, same mass" for "same contents"
+        "new 0 vec;set 0 H:0 2;set 0 O:0 1;new 1 vec;set 1 H:1 2;set 1 O:0 1;fmass 0;fmass 1;sub 2 0 1 ref;subi 0 1 own;get 0 H:0;get 0 H:1;eq 0 1;add 2 1 0 val",
+        "new 0 vec;set 0 Bk:0 3;new 1 vec;set 1 Cm:0 3;fmass 0;fmass 1;eq 0 1;sub 2 0 1 ref;addi 0 1 own;subi 1 0 mut;get 1 Bk:0;get 1 Cm:0",
+        "new 0 vec;set 0 C:12 6;set 0 O:16 1;new 1 vec;set 1 C:0 6;set 1 O:0 1;fmass 0;fmass 1;eq 0 1;eq 1 0;subi 0 1 own;fmass 0",
         # equality probes: same length, zero counts, different keys; asymmetric presence
         "new 0 vec;new 1 vec;set 0 C:0 2;set 0 O:0 1;iadd 0 O:0 -1;set 1 C:0 2;set 1 Cl:0 1;eq 0 1;eq 1 0",
         "new 0 vec;new 1 vec;set 0 C:0 2;set 0 O:0 0;set 1 C:0 2;set 1 O:18 0;eq 0 1;eq 1 0;set 1 O:0 0;eq 0 1",
